@@ -9,6 +9,7 @@ exit:  0 held on everything explored (KNOWN-FINDING lines allowed)
 """
 import argparse
 import hashlib
+import re
 import importlib
 import json
 import multiprocessing
@@ -182,7 +183,11 @@ def load_known(prop):
 
 def match_known(known, name, label):
     for e in known:
-        if e.get("instance") == name and e.get("label") == label:
+        if e.get("label") != label:
+            continue
+        if e.get("instance") == name:
+            return e
+        if e.get("instance_regex") and re.fullmatch(e["instance_regex"], name):
             return e
     return None
 
@@ -223,6 +228,7 @@ def main(argv=None):
     ap.add_argument("--root", default="/repo")
     ap.add_argument("--jobs", type=int, default=int(os.environ.get("VERIF_JOBS", "0")) or min(16, os.cpu_count() or 4))
     ap.add_argument("--only", default=None)
+    ap.add_argument("--exclude", default=None)
     ap.add_argument("--replay", default=None)
     ap.add_argument("--list", action="store_true")
     ap.add_argument("--no-evidence", action="store_true")
@@ -239,6 +245,8 @@ def main(argv=None):
     insts = list(mod.instances(args.tier, seed))
     if args.only:
         insts = [i for i in insts if args.only in i["name"]]
+    if args.exclude:
+        insts = [i for i in insts if args.exclude not in i["name"]]
     if args.list:
         for i in insts:
             print(i["name"])
@@ -320,7 +328,7 @@ def main(argv=None):
         print("INCONCLUSIVE property=%s instance=%s %s" % (prop, r["name"], (r["reason"] or "")[:300]))
     if code == 0 and (errors or (results and len(incon) > max(1, INCONCLUSIVE_LIMIT * len(results))) or not results):
         code = 3
-    if not args.no_evidence and not args.only:
+    if not args.no_evidence and not args.only and not args.exclude:
         write_evidence(mod, prop, args.tier, seed, results, viol, knownhits, incon, errors, wall, args.root, len(insts))
     print("%s %s: %d instances, %d paths, %d queries, solver %.1fs, wall %.1fs; violations=%d known=%d inconclusive=%d errors=%d -> exit %d" % (
         prop, args.tier, len(results), sum(r["paths"] for r in results), sum(r["queries"] for r in results),
